@@ -208,3 +208,21 @@ class DC:
 @task()
 def mkerr(x):
     return ValueError(f"t{x}")
+
+
+@dataclasses.dataclass
+class DCN:
+    a: object
+    b: object = dataclasses.field(init=False, default=None)
+
+
+@dataclasses.dataclass(frozen=True)
+class FDC:
+    a: object
+    b: object = None
+
+
+@dataclasses.dataclass(frozen=True)
+class FDCN:
+    a: object
+    b: object = dataclasses.field(init=False, default=None)
